@@ -7,7 +7,7 @@ Require Import Lia.
 Local Open Scope nat_scope.
 
 Definition awake (p : pc) : bool :=
-  match p with WIdle | WSub _ _ _ | WHop _ _ | WPeek _ _ | WStop _ | WQry _ _ => true | _ => false end.
+  match p with WIdle | WSub _ _ _ | WHop _ _ | WPeek _ _ | WStop _ | WQry _ _ | WWait _ _ => true | _ => false end.
 Definition wpc_ok (p : pc) : bool := match p with WSleep => true | _ => awake p end.
 
 Definition Wake (s : st) : Prop :=
@@ -335,10 +335,10 @@ Proof.
   destruct (nth_error (thrs s) i) as [p|] eqn:H; [|discriminate].
   assert (HT : T s i = Some p) by exact H.
   pose proof (b_class s B i p HT) as [CL1 CL2].
-  destruct p as [prog| | | | | |l k r|l r|l r|r|q r| |l q f a|l q a|a].
+  destruct p as [prog| | | | | |l k r|l r|l r|r|q r|wl r| |l q f a|l q a|a].
   - assert (NW : ~ nclients s <= i).
     { intros L. specialize (CL1 L). discriminate. }
-    destruct prog as [|[l k b| |] r].
+    destruct prog as [|[l k b| | |wl] r].
     + cbn [fst]. destruct (next_client_plain i []) as (X1 & _).
       apply (invc_move s i _ (CAt []) C HT); auto; try (intros; lia); try discriminate.
       * unfold next_client. destruct (Nat.eqb i 0); reflexivity.
@@ -350,6 +350,10 @@ Proof.
       destruct (stop_mark s i (AClient r)) as [s1 e]. cbn [fst] in *. apply E; reflexivity.
     + pose proof (invc_worker_cs s (with_ext s i r) i _ C HT) as E.
       destruct (worker_cs (with_ext s i r) i) as [s1 e]. cbn [fst] in *. apply E; auto. apply (c_wk0 s C).
+    + cbn [fst]. destruct (next_client_plain i r) as (X1 & _).
+      apply (invc_move s i _ (CAt (OWait wl :: r)) C HT); auto; try (intros; lia); try discriminate.
+      * unfold next_client. destruct r; [destruct (Nat.eqb i 0)|]; reflexivity.
+      * intros l q f a w E. rewrite E in X1. discriminate.
   - cbn [fst]. apply (invc_move s i CDtor CXWait C HT); auto; try discriminate.
     intros _ L. specialize (CL1 L). discriminate.
   - pose proof (invc_stop_mark s i ADtor _ B C HT) as E.
@@ -384,6 +388,12 @@ Proof.
     assert (S : is_sleep (job_next r) = false) by (destruct r as [|[] ?]; reflexivity).
     assert (NJ : forall l0 q f a, job_next r <> Join l0 q f a) by (intros; destruct r as [|[] ?]; discriminate).
     apply (invc_move s i _ (WQry q r) C HT); auto; try discriminate;
+      intros l0 q0 f a w E; exfalso; eapply NJ, E.
+  - cbn [fst]. assert (A : awake (job_next r) = true) by (destruct r as [|[] ?]; reflexivity).
+    assert (W : wpc_ok (job_next r) = true) by (destruct r as [|[] ?]; reflexivity).
+    assert (S : is_sleep (job_next r) = false) by (destruct r as [|[] ?]; reflexivity).
+    assert (NJ : forall l0 q f a, job_next r <> Join l0 q f a) by (intros; destruct r as [|[] ?]; discriminate).
+    apply (invc_move s i _ (WWait wl r) C HT); auto; try discriminate;
       intros l0 q0 f a w E; exfalso; eapply NJ, E.
   - discriminate.
   - (* join loop *)
@@ -457,6 +467,7 @@ Qed.
 (* ---------- deadlock freedom ---------- *)
 Definition at_point (p : pc) : bool :=
   match p with
+  | CAt (OWait _ :: _) => false
   | CAt _ | CDtor | WIdle | WSub _ _ _ | WHop _ _ | WPeek _ _ | WStop _ | WQry _ _ | SFin _ | Join [] _ _ _ => true
   | _ => false
   end.
@@ -466,7 +477,9 @@ Definition user_stuck (s : st) : Prop :=
   exit_ s = false /\ queue s = [] /\ exists j, j < nclients s /\ T s j = Some WSleep.
 
 Lemma at_point_enabled s i p : T s i = Some p -> at_point p = true -> enabled s i = true.
-Proof. unfold T, enabled. intros -> A. destruct p as [| | | | | | | | | | | |[|w l] q f a| |]; try discriminate; reflexivity. Qed.
+Proof.
+  unfold T, enabled. intros -> A. destruct p as [[|[] ?]| | | | | | | | | | | | |[|w l] q f a| |]; try discriminate; reflexivity.
+Qed.
 
 Lemma dec_thr s (f : pc -> bool) :
   (exists i p, T s i = Some p /\ f p = true) \/ (forall i p, T s i = Some p -> f p = false).
@@ -492,21 +505,30 @@ Proof.
   - destruct (IH n j x H). split; [assumption|lia].
 Qed.
 
-Theorem stop_no_deadlock ops s : reachable ops s -> ~ terminal s -> (exists i, enabled s i = true) \/ user_stuck s.
+(* a thread waits for the outcome of a submission (the client program / a job made itself depend on it) *)
+Definition is_wait (p : pc) : bool := match p with WWait _ _ | CAt (OWait _ :: _) => true | _ => false end.
+Definition waits_for_submission (s : st) : Prop := exists i p, T s i = Some p /\ is_wait p = true.
+
+Theorem stop_no_deadlock ops s : reachable ops s -> ~ terminal s ->
+  (exists i, enabled s i = true) \/ user_stuck s \/ waits_for_submission s.
 Proof.
   intros R NT. pose proof (invb_reachable ops s R) as B. pose proof (invu_reachable ops s R) as U.
   pose proof (invc_reachable ops s R) as C.
   (* 1. some thread stands at a lock acquisition *)
   destruct (dec_thr s at_point) as [(i & p & H & A)|NP].
   { left. exists i. eapply at_point_enabled; eassumption. }
+  (* 1b. a thread waits for a submission *)
+  destruct (dec_thr s is_wait) as [(i & p & H & A)|NWT].
+  { right. right. exists i, p. auto. }
   (* 2. a thread is joining *)
   destruct (dec_thr s (fun p => match p with Join (_ :: _) _ _ _ => true | _ => false end)) as [(i & p & H & A)|NJ].
-  { left. destruct p as [| | | | | | | | | | | |[|w l] q f a| |]; try discriminate.
+  { left. destruct p as [| | | | | | | | | | | | |[|w l] q f a| |]; try discriminate.
     pose proof (b_join s B i _ H eq_refl) as X.
     destruct (c_jw s C i _ q f a w H (or_introl eq_refl)) as ([L1 L2] & NE).
     destruct (nth_error (thrs s) w) as [pw|] eqn:E; [|apply nth_error_None in E; lia].
     destruct (at_point pw) eqn:AP; [exists w; eapply at_point_enabled; eassumption|].
-    destruct pw as [| | | | | | | | | | | |l0 q0 f0 a0|l0 q0 a0|]; try discriminate AP.
+    pose proof (NWT w pw E) as NWw.
+    destruct pw as [[|[] ?]| | | | | | | | | | | | |l0 q0 f0 a0|l0 q0 a0|]; try discriminate AP; try discriminate NWw.
     - exfalso. pose proof (proj1 (b_class s B w _ E) L1). discriminate.
     - exfalso. pose proof (proj1 (b_class s B w _ E) L1). discriminate.
     - exists w. apply (sleeper_enabled s w WSleep E eq_refl). right. apply (c_ex s C X w E).
@@ -516,8 +538,8 @@ Proof.
       pose proof (proj1 (b_class s B w _ E) L1) as Q. cbn [is_client] in Q. destruct a0; discriminate. }
   (* 3. nobody at a lock, nobody joining: CXWait, CDone, WSleep, WExit and stops waiting for another stop *)
   assert (CL : forall i p, T s i = Some p -> p = CXWait \/ p = CDone \/ p = WSleep \/ p = WExit \/ exists l q a, p = SWait l q a).
-  { intros i p H. pose proof (NP i p H) as A. pose proof (NJ i p H) as J.
-    destruct p as [| | | | | | | | | | | |[|w l] q f a|l q a|]; try discriminate; auto 6.
+  { intros i p H. pose proof (NP i p H) as A. pose proof (NJ i p H) as J. pose proof (NWT i p H) as Wt.
+    destruct p as [[|[] ?]| | | | | | | | | | | | |[|w l] q f a|l q a|]; try discriminate; auto 6.
     right. right. right. right. eauto. }
   destruct (dec_thr s (fun p => match p with SWait _ _ _ => true | _ => false end)) as [(i & p & H & A)|NS].
   { destruct p; try discriminate. pose proof (b_join s B i _ H eq_refl) as X.
@@ -525,7 +547,7 @@ Proof.
     - left. exists i. apply (sleeper_enabled s i _ H eq_refl). right. eapply (c_st s C ST); exact H.
     - exfalso. destruct (c_first s C X ST) as (t & pt & Ht & Sp).
       pose proof (NP t pt Ht) as A1. pose proof (NJ t pt Ht) as A2.
-      destruct pt as [| | | | | | | | | | | |[|w0 l0] q0 f0 a0| |]; discriminate. }
+      destruct pt as [| | | | | | | | | | | | |[|w0 l0] q0 f0 a0| |]; discriminate. }
   assert (CL2 : forall i p, T s i = Some p -> p = CXWait \/ p = CDone \/ p = WSleep \/ p = WExit).
   { intros i p H. destruct (CL i p H) as [X|[X|[X|[X|(l & q & a & X)]]]]; auto. subst p. specialize (NS i _ H). discriminate. }
   assert (XW : forall i, T s i = Some CXWait -> (forall j p, j < nclients s -> T s j = Some p -> p <> WSleep) -> enabled s i = true).
@@ -548,7 +570,7 @@ Proof.
   - destruct (queue s) as [|c0 r] eqn:Q.
     + (* idle pool: does a client thread sleep in worker()? *)
       destruct (existsb (fun j => match nth_error (thrs s) j with Some WSleep => true | _ => false end) (seq 0 (nclients s))) eqn:EB.
-      * right. apply existsb_exists in EB. destruct EB as (k & Hk & Ek). apply in_seq in Hk.
+      * right. left. apply existsb_exists in EB. destruct EB as (k & Hk & Ek). apply in_seq in Hk.
         repeat split; auto. exists k. split; [lia|]. unfold T. destruct (nth_error (thrs s) k) as [[]|]; try discriminate. reflexivity.
       * left.
         assert (NSL : forall k p, k < nclients s -> T s k = Some p -> p <> WSleep).
